@@ -136,7 +136,9 @@ type Struct struct {
 	Unknown bool     // declares the unknown-fields holder
 	UnkIdx  int      // Go field index of the holder
 	HasInit bool     // has a default initialiser
-	GoType  reflect.Type
+	// DeclReversed: the Go struct declares its fields in descending id order (the schema is unaffected)
+	DeclReversed bool
+	GoType       reflect.Type
 }
 
 func (s *Struct) Field(id uint16) *Field {
